@@ -17,14 +17,17 @@ PLAN = {
     "C07": {
         "level": "proof",
         "contracts": ["contracts.evaluation", "contracts.constraints"],
+        "lemmas": True,
     },
     "C11": {
         "level": "proof",
         "contracts": ["contracts.evaluation", "contracts.constraints"],
+        "lemmas": True,
     },
     "C02": {
         "level": "proof",
         "contracts": ["contracts.evaluation", "contracts.constraints"],
+        "lemmas": True,
     },
     "C03": {
         "level": "proof",
